@@ -366,6 +366,7 @@ class Result:
         self.phis: dict = {}          # (loop_id, name) -> set of source terms
         self.loops: dict = {}         # loop_id -> node
         self.backedges: dict = {}     # loop_id -> states at the end of the body / at `continue`
+        self.phi_facts: dict = {}     # (loop_id, name, source term) -> [facts holding where the source was produced]
         self.max_live = 0
         self.paths = 0
 
@@ -563,6 +564,7 @@ class Analyzer:
         for n in sorted(names):
             src = head.env.get(n, ("unknown", "unbound", 0))
             self.res.phis.setdefault((lid, n), set()).add(src)
+            self.res.phi_facts.setdefault((lid, n, src), []).append(s.facts)
             head.env[n] = ("phi", lid, n)
         head.ctx = head.ctx + (("loop", lid),)
         return head, names
@@ -573,6 +575,7 @@ class Analyzer:
             for n in names:
                 if n in s.env and s.env[n] != ("phi", lid, n):
                     self.res.phis[(lid, n)].add(s.env[n])
+                    self.res.phi_facts.setdefault((lid, n, s.env[n]), []).append(s.facts)
 
     def _pop_ctx(self, s, c):
         s2 = s.copy()
@@ -723,6 +726,8 @@ class Analyzer:
             s3, idx = self.eval(tgt.slice, s2)[0]
             self.event("store_sub", st, s3, base=base, index=idx, value=v, target=tgt)
             s3 = s3.copy()
+            if self.trace is not None and self.trace("store_sub", ("sub", base, idx)):
+                s3.trace = s3.trace + (("store", ("sub", base, idx), v),)
             new = ("mut", base, "setitem", (idx, v))
             if isinstance(tgt.value, ast.Name):
                 s3.env[tgt.value.id] = new
